@@ -52,6 +52,12 @@ func (e *fnEnc) opaque(v ssa.Value) string {
 }
 
 func (e *fnEnc) instr(in ssa.Instruction) {
+	if in.Parent() == e.fn {
+		// (instructions of inlined callees keep the call instruction of the function under proof)
+		saved := e.curInstr
+		e.curInstr = in
+		defer func() { e.curInstr = saved }()
+	}
 	switch i := in.(type) {
 	case *ssa.DebugRef:
 	case *ssa.Alloc:
@@ -110,6 +116,7 @@ func (e *fnEnc) instr(in ssa.Instruction) {
 		e.setHeap(hk, fmt.Sprintf("(store %s %s ((as const (Array Int Bool)) false))", e.heap(hk), n))
 		e.vc.declFun("maplen", "((Array Int Bool)) Int")
 		e.vc.def("(= (maplen ((as const (Array Int Bool)) false)) 0)")
+		e.localMaps = append(e.localMaps, i)
 	case *ssa.MakeSlice:
 		e.makeSlice(i)
 	case *ssa.Range:
@@ -1132,4 +1139,62 @@ func onlyDeferredClosures(a *ssa.Alloc) bool {
 		}
 	}
 	return sawClosure
+}
+
+// mapUnescapedAt: the map made by mk cannot have been seen by any other function when control is at instruction at:
+// every use that could leak it (call argument, store, return, conversion, phi, ...) lies where it cannot reach at.
+func (e *fnEnc) mapUnescapedAt(mk *ssa.MakeMap, at ssa.Instruction) bool {
+	if at == nil || mk.Referrers() == nil {
+		return false
+	}
+	idxOf := func(in ssa.Instruction) int {
+		for k, x := range in.Block().Instrs {
+			if x == in {
+				return k
+			}
+		}
+		return -1
+	}
+	reach := map[*ssa.BasicBlock]bool{}
+	var walk func(b *ssa.BasicBlock)
+	walk = func(b *ssa.BasicBlock) {
+		for _, s := range b.Succs {
+			if !reach[s] {
+				reach[s] = true
+				walk(s)
+			}
+		}
+	}
+	for _, r := range *mk.Referrers() {
+		leak := true
+		switch u := r.(type) {
+		case *ssa.MapUpdate:
+			leak = u.Map != ssa.Value(mk) || u.Key == ssa.Value(mk) || u.Value == ssa.Value(mk)
+		case *ssa.Lookup:
+			leak = u.X != ssa.Value(mk)
+		case *ssa.Range:
+			leak = false
+		case *ssa.DebugRef:
+			leak = false
+		case *ssa.Call:
+			if b, ok := u.Call.Value.(*ssa.Builtin); ok && (b.Name() == "len" || b.Name() == "delete") {
+				leak = false
+			}
+		}
+		if !leak {
+			continue
+		}
+		// a leaking use: does it (or anything after it) come before `at` on some path?
+		if r.Block() == at.Block() && idxOf(r) <= idxOf(at) {
+			return false
+		}
+		for k := range reach {
+			delete(reach, k)
+		}
+		walk(r.Block())
+		if reach[at.Block()] {
+			return false
+		}
+	}
+	return true
 }
